@@ -182,3 +182,207 @@ def mon_c01(net, obs, final_alpha=1.0, tol_m=1e-5):
         obs.violate("global_imbalance", "total feed-in %.6g != consumption - injection %.6g" % (feed_total, cons_total),
                     feed_in=feed_total, consumption_minus_injection=cons_total)
     return len(supplied)
+
+
+# ------------------------------------------------------------------------------------------------
+# C02 momentum law per flowing branch
+# ------------------------------------------------------------------------------------------------
+
+def _pit_sections(net, pipe_label):
+    """Section rows of one pipe from the solver's internal table (only used for interior nodes of
+    multi-section pipes, which no public result table exposes for arbitrary index labels)."""
+    from pandapipes.idx_branch import ELEMENT_IDX, FROM_NODE, TO_NODE, MDOTINIT, TOUTINIT, TABLE_IDX
+    from pandapipes.idx_node import PINIT, TINIT
+    from pandapipes.pf.pipeflow_setup import get_lookup
+    f, t = get_lookup(net, "branch", "from_to")["pipe"]
+    bp = net["_pit"]["branch"][f:t]
+    npit = net["_pit"]["node"]
+    rows = bp[bp[:, ELEMENT_IDX] == pipe_label]
+    out = []
+    for r in rows:
+        fn, tn = int(r[FROM_NODE]), int(r[TO_NODE])
+        out.append(dict(p1=float(npit[fn, PINIT]), p2=float(npit[tn, PINIT]), t1=float(npit[fn, TINIT]),
+                        t2=float(r[TOUTINIT]), mdot=float(r[MDOTINIT])))
+    return out
+
+
+def _law_bound(fric, mdot, tight, tol_p, tol_m):
+    if tight:
+        return 1e-7 + 1e-6 * abs(fric)
+    dm = abs(2 * fric / mdot) * tol_m if mdot else 0.0
+    return 1e-7 + 1e-6 * abs(fric) + 2 * tol_p + dm
+
+
+def mon_c02(net, obs, opts):
+    fluid = net.fluid
+    gas = bool(fluid.is_gas)
+    model = opts.get("friction_model", "nikuradse")
+    tol_p, tol_m = opts.get("tol_p", 1e-5), opts.get("tol_m", 1e-5)
+    tight = tol_p <= 1e-8 and tol_m <= 1e-8
+    cb_tol = opts.get("tolerance_colebrook", 1e-4) if model == "colebrook" else 0.0
+    pj = net.res_junction.p_bar
+    hj = net.junction.height_m
+    inc = {(t, idx): (fk, tk) for t, idx, fk, tk in incidence(net)}
+    eta_of = lambda tm: float(fluid.get_viscosity(tm))
+    rho_n = float(fluid.get_density(ph.T_N))
+
+    def rel(a, b):
+        return abs(a - b) / max(abs(a), abs(b), 1e-300)
+
+    def check_section(tag_el, m, p1b, p2b, h1, h2, t1, t2, d, L, k, zeta, want_lambda=True, zeta_alt=None):
+        p1, p2 = p1b + float(ph.p_amb(h1)), p2b + float(ph.p_amb(h2))
+        eta = eta_of(0.5 * (t1 + t2))
+        re = ph.reynolds(m, d, eta)
+        regime = "zero" if re < 1e-9 else ("laminar" if re < 2300 else "turbulent")
+        lam = ph.friction_factor(model, re, d, k, gas) if (re >= 1e-9 and want_lambda and L > 0) else 0.0
+        static, fric, rho = ph.momentum_terms(fluid, m, p1, p2, h1, h2, t1, t2, d, L, lam, zeta)
+        res = static - fric
+        bound = _law_bound(fric, m, tight, tol_p, tol_m)
+        if cb_tol and L > 0 and lam > 0:
+            bound += abs(fric) * cb_tol / lam
+        obs.count("law_sections_%s_%s" % ("gas" if gas else "liquid", regime))
+        if m < 0:
+            obs.count("law_sections_reverse_flow")
+        if abs(h1 - h2) > 1:
+            obs.count("law_sections_height_difference")
+        if zeta > 0:
+            obs.count("law_sections_with_loss_coefficient")
+        obs.maxi("max_abs_law_residual_bar" + ("_tight" if tight else "_default_tol"), abs(res))
+        obs.maxi("max_friction_term_bar", abs(fric))
+        if abs(res) > bound and zeta_alt is not None:
+            _, fric_alt, _ = ph.momentum_terms(fluid, m, p1, p2, h1, h2, t1, t2, d, L, lam, zeta_alt)
+            if abs(static - fric_alt) <= _law_bound(fric_alt, m, tight, tol_p, tol_m) + (
+                    abs(fric_alt) * cb_tol / lam if cb_tol and lam > 0 else 0):
+                obs.violate("loss_coefficient_repeated_per_section",
+                            "%s: the pipe's loss coefficient %.4g acts once per section (n sections lose n*zeta): "
+                            "residual with the documented lumped coefficient %.3e bar, with zeta per section %.1e bar"
+                            % (tag_el, zeta_alt, res, static - fric_alt), element=tag_el, zeta=zeta_alt, mdot=m,
+                            residual_lumped=res, residual_per_section=static - fric_alt)
+                return re, lam, rho, p1, p2
+        if abs(res) > bound:
+            obs.violate("momentum_law_" + tag_el.split("[")[0],
+                        "%s: momentum residual %.3e bar (bound %.1e, friction term %.3e bar)" % (tag_el, res, bound, fric),
+                        element=tag_el, residual_bar=res, static_bar=static, friction_bar=fric, mdot=m, re=re,
+                        lam=lam, zeta=zeta, sections_law="per section")
+        return re, lam, rho, p1, p2
+
+    # ---- pipes
+    if has(net, "pipe") and "res_pipe" in net:
+        P, R = net.pipe, net.res_pipe
+        for idx in P.index:
+            if not bool(P.at[idx, "in_service"]):
+                continue
+            m_from = float(R.at[idx, "mdot_from_kg_per_s"])
+            if math.isnan(m_from):
+                continue
+            el = name_of(net, "pipe", idx)
+            fj, tj = int(P.at[idx, "from_junction"]), int(P.at[idx, "to_junction"])
+            fk, tk = inc[("pipe", idx)]
+            for key, col, jn in ((fk, "p_from_bar", fj), (tk, "p_to_bar", tj)):
+                if key[0] == "j":
+                    obs.count("end_pressure_vs_junction")
+                    a, b = float(R.at[idx, col]), float(pj.at[jn])
+                    if not (a == b or abs(a - b) <= 1e-12 * max(1, abs(b))):
+                        obs.violate("branch_end_pressure_differs_from_junction",
+                                    "%s.%s=%r but res_junction.p_bar[%d]=%r" % (el, col, a, jn, b), element=el)
+            n = int(P.at[idx, "sections"])
+            d = float(P.at[idx, "inner_diameter_mm"]) / 1000.0
+            L = float(P.at[idx, "length_km"]) * 1000.0
+            k = float(P.at[idx, "k_mm"]) / 1000.0
+            zeta = float(P.at[idx, "loss_coefficient"])
+            h1, h2 = float(hj.at[fj]), float(hj.at[tj])
+            if n == 1:
+                secs = [dict(p1=float(R.at[idx, "p_from_bar"]), p2=float(R.at[idx, "p_to_bar"]),
+                             t1=float(R.at[idx, "t_from_k"]), t2=float(R.at[idx, "t_outlet_k"]), mdot=m_from)]
+            else:
+                secs = _pit_sections(net, idx)
+                if len(secs) != n:
+                    obs.violate("pipe_section_count", "%s has %d pit sections, table says %d" % (el, len(secs), n))
+                    continue
+                obs.count("multi_section_pipes")
+            res_, lams, vs, vdots = [], [], [], []
+            for s_i, s in enumerate(secs):
+                ha = h1 + (h2 - h1) * s_i / n
+                hb = h1 + (h2 - h1) * (s_i + 1) / n
+                # the documented lumped loss coefficient belongs to the pipe once: zeta/n per section
+                re, lam, rho, p1, p2 = check_section(el + (".s%d" % s_i if n > 1 else ""), s["mdot"], s["p1"], s["p2"],
+                                                     ha, hb, s["t1"], s["t2"], d, L / n, k, zeta / n,
+                                                     zeta_alt=zeta if (n > 1 and zeta > 0) else None)
+                res_.append(re)
+                lams.append(lam)
+                a = ph.area(d)
+                if gas:
+                    vn = s["mdot"] / (rho_n * a)
+                    pm = ph.mean_pressure(p1, p2) if abs(p1 - p2) > 1e-8 + 1e-5 * abs(p2) else p1
+                    vs.append(vn * ph.normfactor(fluid, pm, 0.5 * (s["t1"] + s["t2"])))
+                    vdots.append(s["mdot"] / rho_n)
+                    s["nf1"] = ph.normfactor(fluid, p1, s["t1"])
+                    s["nf2"] = ph.normfactor(fluid, p2, s["t2"])
+                    s["vn"] = vn
+                else:
+                    vs.append(s["mdot"] / (rho * a))
+                    vdots.append(s["mdot"] / rho)
+            m_abs = max(abs(m_from), 1e-300)
+            rt = 1e-8 + 4 * tol_m / m_abs
+            exp = {"reynolds": float(np.mean(res_)), "v_mean_m_per_s": float(np.mean(vs)),
+                   ("vdot_norm_m3_per_s" if gas else "vdot_m3_per_s"): float(np.mean(vdots))}
+            if max(res_) >= 1e-9:
+                exp["lambda"] = float(np.mean(lams))
+            if gas:
+                exp.update(v_from_m_per_s=secs[0]["vn"] * secs[0]["nf1"], v_to_m_per_s=secs[-1]["vn"] * secs[-1]["nf2"],
+                           normfactor_from=secs[0]["nf1"], normfactor_to=secs[-1]["nf2"])
+            for col, want in exp.items():
+                got = float(R.at[idx, col])
+                obs.count("derived_quantities_checked")
+                tol = rt + (cb_tol / max(want, 1e-12) if col == "lambda" else 0.0)
+                if col == "lambda" and min(res_) < 1e-9:
+                    continue
+                if not (rel(got, want) <= tol or abs(got - want) <= 1e-14):
+                    obs.violate("derived_" + col, "%s: reported %s=%.10g, from reported mdot/p/T follows %.10g"
+                                % (el, col, got, want), element=el, column=col, reported=got, expected=want, rtol=tol)
+                else:
+                    obs.maxi("max_rel_dev_" + col, rel(got, want) if want else 0.0)
+
+    # ---- valves and heat exchangers: zero length, lumped loss coefficient only
+    for t in ("valve", "heat_exchanger"):
+        if not has(net, t) or "res_" + t not in net:
+            continue
+        T, R = net[t], net["res_" + t]
+        for idx in T.index:
+            m = float(R.at[idx, "mdot_from_kg_per_s"])
+            if math.isnan(m):
+                continue
+            if t == "valve" and not bool(T.at[idx, "opened"]):
+                continue
+            if t == "heat_exchanger" and not bool(T.at[idx, "in_service"]):
+                continue
+            el = name_of(net, t, idx)
+            fk, tk = inc[(t, idx)]
+            h1 = float(hj.at[fk[1]])
+            h2 = float(hj.at[tk[1]]) if tk[0] == "j" else h1
+            d = float(T.at[idx, "inner_diameter_mm"]) / 1000.0
+            zeta = float(T.at[idx, "loss_coefficient"])
+            re, lam, rho, p1, p2 = check_section(el, m, float(R.at[idx, "p_from_bar"]), float(R.at[idx, "p_to_bar"]),
+                                                 h1, h2, float(R.at[idx, "t_from_k"]), float(R.at[idx, "t_outlet_k"]),
+                                                 d, 0.0, 1e-3, zeta, want_lambda=False)
+            obs.count("law_" + t)
+            if fk[0] == "j":
+                a, b = float(R.at[idx, "p_from_bar"]), float(pj.at[fk[1]])
+                obs.count("end_pressure_vs_junction")
+                if not abs(a - b) <= 1e-12 * max(1, abs(b)):
+                    obs.violate("branch_end_pressure_differs_from_junction", "%s.p_from_bar=%r vs junction %r" % (el, a, b))
+            if t == "valve":
+                rt = 1e-8 + 4 * tol_m / max(abs(m), 1e-300)
+                a = ph.area(d)
+                if gas:
+                    pm = ph.mean_pressure(p1, p2) if abs(p1 - p2) > 1e-8 + 1e-5 * abs(p2) else p1
+                    tm = 0.5 * (float(R.at[idx, "t_from_k"]) + float(R.at[idx, "t_outlet_k"]))
+                    want_v = m / (rho_n * a) * ph.normfactor(fluid, pm, tm)
+                else:
+                    want_v = m / (rho * a)
+                for col, want in (("reynolds", re), ("v_mean_m_per_s", want_v)):
+                    got = float(R.at[idx, col])
+                    obs.count("derived_quantities_checked")
+                    if not (rel(got, want) <= rt or abs(got - want) <= 1e-14):
+                        obs.violate("derived_" + col, "%s: reported %s=%.10g, expected %.10g" % (el, col, got, want),
+                                    element=el, column=col, reported=got, expected=want)
